@@ -22,6 +22,10 @@ let table : (string * (z list -> z list)) list = [
   ("api_fuzz", (fun _ -> [Model.Zneg (Model.XI (Model.XO (Model.XO Model.XH)))]));
   ("stroke_geo", (fun _ -> [Model.Zneg (Model.XI (Model.XO (Model.XO Model.XH)))]));
   ("gather", run_gather);
+  ("stroke_repeat", (fun _ -> [Model.Zneg (Model.XI (Model.XO (Model.XO Model.XH)))]));
+  ("tight_bounds", (fun _ -> [Model.Zneg (Model.XI (Model.XO (Model.XO Model.XH)))]));
+  ("mask_ops", (fun _ -> [Model.Zneg (Model.XI (Model.XO (Model.XO Model.XH)))]));
+  ("cs_px", (fun _ -> [Model.Zneg (Model.XI (Model.XO (Model.XO Model.XH)))]));
   ("nearest_map", run_nearest_map);
   ("tiles", run_tiles);
   ("pat_px", (fun _ -> [Model.Zneg (Model.XI (Model.XO (Model.XO Model.XH)))]));
